@@ -218,8 +218,10 @@ class BO(Conversions):
         """
         super().__setitem__(key, value)
 
+        # only labels that became variables of the model get an integer
+        # label: a zero value stores nothing, and squash_key may drop labels.
         for i in key:
-            if i not in self._mapping:
+            if i in self._variables and i not in self._mapping:
                 self._mapping[i] = self._next_label
                 self._reverse_mapping[self._next_label] = i
                 self._next_label += 1
